@@ -49,7 +49,13 @@ class Inst:
         self.rec = rec
         self.id = rec['id']
         self.crate = crate
-        self.decl = rec['decl']
+        # rustc calls a raw-identifier variant `r#type` plain `type`; its *name* (Ident::to_string) keeps the prefix
+        vs = []
+        for v in rec['decl']['variants']:
+            if v['ident'].startswith('r#'):
+                v = dict(v, src_ident=v['ident'], ident=v['ident'][2:])
+            vs.append(v)
+        self.decl = dict(rec['decl'], variants=vs)
         self.cfg = rec['cfg']
         self.feats = dict(rec['cfg']['features']) if rec['cfg'] else {}
         self.enum_name = self.decl.get('enum_name', 'E')
